@@ -564,7 +564,8 @@ func runC09(r *Run) {
 	poolMixedStates09(r)
 	doneContextCallers09(r)
 	upstreamPipelineLimits09(r)
-	r.Finish("part 1: random histories (10..50 operations) of reserve / withdraw / exchange / exchange with a dead context / reply / cancel (+ late reply) / stray reply / peer close on one TraditionalDnsConn, limit 1..4, stream and datagram, probing after every operation how many further queries are admitted; part 2: the same on a connection whose dial is gated (queue limit 1..4), then the dial succeeds with limit >= queue limit, fails, or Close cancels it; part 3: bursts of 2..10 concurrent queries (with cancellations) over both transports with the server counting unanswered queries per connection; part 4: on one TraditionalDnsConn with some reservations held and queries unanswered, 2..13 more callers than it has room for reserve at the same moment (lined up on the connection's lock, which the harness holds through a held SetReadDeadline call, or let loose together), the admitted ones send to a server that never answers and counts unanswered queries, then replies / cancellations and the capacity probe, several bursts per connection, replayed on the model; part 5: 2..16 queries queued on a dialing connection whose dial succeeds with a SMALLER limit (1..4) re-reserve at the same moment, same server-side count, replayed on the composed model; part 6: the same through PipelineTransport (burst while the dial is held, queue limit > connection limit, retries on further connections), unanswered queries counted per connection; part 7: late callers arrive at the moment the dial of a connection with a full (or partly filled) queue succeeds with an equal or larger limit, while one queued caller is held at the entry of ReserveNewQuery of the dialed connection (wrapper around the real connection): every queued query must be sent, capacity probes afterwards, replayed on the composed model; the same through PipelineTransport (limit 1..3, every call must succeed); part 8: PipelineTransport with a pool in mixed states: connection A established and filled, one more query makes it dial B (dial held), A drops below its limit, 72 (200) queries one after the other each answered at once (the visiting order of the connections varies), B's dial succeeds or fails, everything is answered, then a burst of limit x live connections held queries must be carried by the live connections without a further dial and without a call hanging; the burst is replayed on the model of the transport's pick, and the history of every connection as its server saw it on the composed model (compared: what the connection admits at the end); part 9: PipelineTransport (limit 1..4) with calls whose context is already cancelled or past its deadline, mixed with answered queries, on an established connection and while the first connection is dialing (with ordinary queries queued next to them): every later call must return, and a held burst of limit x live connections queries must be carried without a further dial; the history of the connection is replayed on the composed model; part 10: the upstream as pkg/upstream.NewUpstream builds it (tcp+pipeline, tls+pipeline, tcp / tls with EnablePipeline) against a pipelining tcp / tls server on loopback whose first read (the tls handshake) is delayed 100..300 ms: a burst of 33..64 concurrent held queries (64 = the pipelining limit) must be carried by one connection with no query failing, and again 64 on the quiescent connection")
+	idWrap09(r)
+	r.Finish("part 1: random histories (10..50 operations) of reserve / withdraw / exchange / exchange with a dead context / reply / cancel (+ late reply) / stray reply / peer close on one TraditionalDnsConn, limit 1..4, stream and datagram, probing after every operation how many further queries are admitted; part 2: the same on a connection whose dial is gated (queue limit 1..4), then the dial succeeds with limit >= queue limit, fails, or Close cancels it; part 3: bursts of 2..10 concurrent queries (with cancellations) over both transports with the server counting unanswered queries per connection; part 4: on one TraditionalDnsConn with some reservations held and queries unanswered, 2..13 more callers than it has room for reserve at the same moment (lined up on the connection's lock, which the harness holds through a held SetReadDeadline call, or let loose together), the admitted ones send to a server that never answers and counts unanswered queries, then replies / cancellations and the capacity probe, several bursts per connection, replayed on the model; part 5: 2..16 queries queued on a dialing connection whose dial succeeds with a SMALLER limit (1..4) re-reserve at the same moment, same server-side count, replayed on the composed model; part 6: the same through PipelineTransport (burst while the dial is held, queue limit > connection limit, retries on further connections), unanswered queries counted per connection; part 7: late callers arrive at the moment the dial of a connection with a full (or partly filled) queue succeeds with an equal or larger limit, while one queued caller is held at the entry of ReserveNewQuery of the dialed connection (wrapper around the real connection): every queued query must be sent, capacity probes afterwards, replayed on the composed model; the same through PipelineTransport (limit 1..3, every call must succeed); part 8: PipelineTransport with a pool in mixed states: connection A established and filled, one more query makes it dial B (dial held), A drops below its limit, 72 (200) queries one after the other each answered at once (the visiting order of the connections varies), B's dial succeeds or fails, everything is answered, then a burst of limit x live connections held queries must be carried by the live connections without a further dial and without a call hanging; the burst is replayed on the model of the transport's pick, and the history of every connection as its server saw it on the composed model (compared: what the connection admits at the end); part 9: PipelineTransport (limit 1..4) with calls whose context is already cancelled or past its deadline, mixed with answered queries, on an established connection and while the first connection is dialing (with ordinary queries queued next to them): every later call must return, and a held burst of limit x live connections queries must be carried without a further dial; the history of the connection is replayed on the composed model; part 10: the upstream as pkg/upstream.NewUpstream builds it (tcp+pipeline, tls+pipeline, tcp / tls with EnablePipeline) against a pipelining tcp / tls server on loopback whose first read (the tls handshake) is delayed 100..300 ms: a burst of 33..64 concurrent held queries (64 = the pipelining limit) must be carried by one connection with no query failing, and again 64 on the quiescent connection; part 11 (c09wrap.go): histories longer than the 16-bit wire id space on one TraditionalDnsConn (limit 2..4): 1..limit-1 queries stay unanswered while 65536 - d (d = 0..2) further queries are answered one after the other (op fill:N) until the id counter is back at the waiting ones, then the connection is filled up repeatedly; capacity probe after every operation, unanswered queries counted by the server, replayed on the model")
 }
 
 // ---------------------------------------------------------------- concurrent reservers (parts 4..6)
